@@ -653,6 +653,9 @@ def reuse_names(form, g, k=2):
     # (a question with a trigger is addressed by name when its setvalue is placed, so its name has to be unique)
     triggered = {n["c"].get("name") for n, _ in allnodes if "trigger" in n["c"]}
 
+    # (xml-/csv-external rows name instances, whose ids have to be unique form-wide)
+    triggered |= {n["c"].get("name") for n, _ in allnodes if n["c"].get("type", "").split(" ")[0] in ("xml-external", "csv-external")}
+
     def free(name):
         return name is not None and name not in triggered and ("${%s}" % name) not in blob and ("#%s}" % name) not in blob
 
